@@ -413,7 +413,26 @@ class C20Executor(Executor):
             raise Unsupported(f"{self.loc(node)} method {name} on a symbolic byte buffer")
         return super().call_method(st, obj, name, args, kwargs, node)
 
+    def assign(self, tgt, v, st):
+        import ast as _ast
+        if isinstance(tgt, (_ast.Tuple, _ast.List)) and sum(isinstance(e, _ast.Starred) for e in tgt.elts) == 1:
+            # first, *middle, last = <sequence of concrete length>
+            items = self.concrete_items(st, v)
+            k = next(i for i, e in enumerate(tgt.elts) if isinstance(e, _ast.Starred))
+            after = len(tgt.elts) - k - 1
+            if items is not None and len(items) >= len(tgt.elts) - 1:
+                parts = items[:k] + [self.new_list(st, items[k:len(items) - after])] + items[len(items) - after:]
+                states = [st]
+                for e, x in zip(tgt.elts, parts):
+                    states = [s2 for s1 in states for s2 in self.assign(e.value if isinstance(e, _ast.Starred) else e, x, s1)]
+                return states
+        return super().assign(tgt, v, st)
+
     def binop(self, st, op, a, b, node, inplace=False):
+        if op == "Add" and not inplace and isinstance(a, VRef) and isinstance(b, VRef) \
+                and st.obj(a.ref).kind == "list" and st.obj(b.ref).kind == "list" \
+                and st.obj(a.ref).data is not None and st.obj(b.ref).data is not None:
+            return [(st, self.new_list(st, list(st.obj(a.ref).data) + list(st.obj(b.ref).data)))]
         if op == "Add" and inplace and isinstance(a, VRef) and st.heap.get(a.ref) is not None and st.obj(a.ref).kind == "symarr":
             items = self.concrete_items(st, b)
             if items is None:
@@ -570,6 +589,19 @@ class C20Executor(Executor):
         if r is not None and r[0] == "sym":
             return [(r[1], r[2])]
         return super().e_ListComp(n, st)
+
+    def b_sum(self, st, args, kwargs, node):
+        items = self.concrete_items(st, args[0])
+        start = args[1] if len(args) > 1 else kwargs.get("start")
+        if items is not None and isinstance(start, VRef) and st.obj(start.ref).kind == "list" and st.obj(start.ref).data is not None:
+            acc = list(st.obj(start.ref).data)          # sum(<lists>, []) flattens
+            for x in items:
+                sub = self.concrete_items(st, x)
+                if sub is None or not isinstance(x, VRef):
+                    return super().b_sum(st, args, kwargs, node)
+                acc += sub
+            return [(st, self.new_list(st, acc))]
+        return super().b_sum(st, args, kwargs, node)
 
     def b_all(self, st, args, kwargs, node):
         v = args[0]
